@@ -966,7 +966,7 @@ func c04GenPark(r *Rand) Fields {
 }
 
 // "live" history: snapshot semantics made visible.  150-250 handlers under one name in one set; the
-// FIRST one, as soon as it runs for event 1, registers a new handler under the same name and removes
+// first of them that gets to run for event 1 registers a new handler under the same name and removes
 // the LAST one.  The dispatcher is then still busy starting the goroutines of that long list: the new
 // handler must NOT run for event 1 and the removed one MUST (both calls start after the first handler
 // entry, i.e. after the snapshot: the interval oracle is exact); event 2 sees the new state.
@@ -989,7 +989,8 @@ func c04GenLive(r *Rand, kind int) Fields {
 	tail := rid
 	in = append(in, F(op, c04Variant(r, base), 51, tail)...)
 	rid++
-	in = append(in, F("N", "", 1, 1, "n"+op, c04Variant(r, base), 52, rid, "nR", "", tail, 0)...)
+	// the script belongs to the filler handlers (hid 50): whichever of them runs first performs it
+	in = append(in, F("N", "", 50, 1, "n"+op, c04Variant(r, base), 52, rid, "nR", "", tail, 0)...)
 	in = append(in, F("E", c04Variant(r, base), 0, 0, "E", c04Variant(r, base), 0, 0)...)
 	return in
 }
